@@ -39,6 +39,9 @@ def cases(seed, tier):
     rng = np.random.default_rng([seed, 3])
     for i in range(n):
         yield {"family": ["binary", "text"][(i % 6) >= 2], "delim": DELIMS[i % 6], "sub": int(rng.integers(0, 2**31))}
+    # header-less record files written through the recfile layer itself
+    for i in range(n // 4):
+        yield {"family": "raw-" + ["binary", "text"][(i % 6) >= 2], "delim": DELIMS[i % 6], "sub": int(rng.integers(0, 2**31))}
 
 
 def install():
@@ -183,7 +186,96 @@ def gen_history(rng, text):
     return ops
 
 
+def run_raw(case):
+    """The same statement one layer down: a header-less record file created by Recfile(mode='w') and grown by
+    re-opening it in mode 'r+' (object or the recfile.write function), several writes per handle or one.  There is no
+    stored row count here; the file must hold the concatenation of the chunks (binary: byte for byte)."""
+    from esutil import recfile
+    rng = np.random.default_rng(case["sub"])
+    delim = case["delim"]
+    text = delim is not None
+    d = os.environ.get("VERIF_CASEDIR", ".")
+    path = os.path.join(d, "c03raw_%d.rec" % case["_i"])
+    if os.path.exists(path):
+        os.unlink(path)
+    proto = rs.text_table(rng, nrows=1, exact=True) if text else rs.bin_table(rng, nrows=1)
+    dtype = proto.dtype
+    form = "raw-text" if text else "raw-binary"
+    L = int(rng.integers(2, 8))
+    ops = ["create"] + [["reopen-handle", "reopen-fn", "reopen-handle-many", "overwrite", "read-back"][int(rng.integers(0, 5))] for _ in range(L)]
+    wit0 = {"descr": repr(dtype.descr)[:300], "delim": delim, "ops": ops}
+    COL.sample({"delim": delim, "descr": repr(dtype.descr)[:140], "ops": ops}, limit=4)
+    model = Model()
+    okall = True
+
+    def w(c):
+        return gen.maybe_view(rng, c.copy(), p=0.2)
+
+    for step, op in enumerate(ops):
+        cs = [new_chunk(rng, dtype, text) for _ in range(int(rng.integers(2, 4)) if op in ("create", "reopen-handle-many") and rng.random() < .7 else 1)]
+
+        def f():
+            if op in ("create", "overwrite"):
+                with recfile.Recfile(path, mode="w", delim=delim) as r:
+                    for c in cs:
+                        r.write(w(c))
+            elif op in ("reopen-handle", "reopen-handle-many"):
+                with recfile.Recfile(path, mode="r+", dtype=dtype, delim=delim) as r:
+                    for c in cs:
+                        r.write(w(c))
+            elif op == "reopen-fn":
+                recfile.write(path, w(cs[0]), mode="r+", dtype=dtype, delim=delim)
+        if op != "read-back":
+            before = file_state(path)
+            res, e = probe.attempt(f)
+            COL.event(dict(op=op, before=before, after=file_state(path), raised=type(e).__name__ if e else None))
+            if e is not None:
+                COL.violation("C03.history", "%s (step %d) on a header-less record file raised %s: %s" % (op, step, type(e).__name__, str(e)[:160]),
+                              dict(wit0, step=step))
+                okall = False
+                break
+            if op in ("create", "overwrite"):
+                model.create(cs[0], None, delim)
+                for c in cs[1:]:
+                    model.append(c)
+            else:
+                for c in (cs if op != "reopen-fn" else cs[:1]):
+                    model.append(c)
+        exp = expected_table(model, text)
+        sig = (form, delim, op, min(len(model.chunks), 4))
+        bad = None
+        if not text:
+            raw = open(path, "rb").read()
+            if raw != exp.tobytes():
+                bad = "the file holds %d bytes, the %d chunks written so far %d%s" % (
+                    len(raw), len(model.chunks), exp.nbytes, "" if len(raw) != exp.nbytes else " (same size, other content)")
+        if bad is None:
+            got, e = probe.attempt(recfile.read, path, dtype=dtype, delim=delim)
+            if e is not None:
+                bad = "recfile.read raised %s: %s" % (type(e).__name__, str(e)[:140])
+            elif got.size != exp.size:
+                bad = "read returns %d rows, %d were written" % (got.size, exp.size)
+            elif text and not all(rs.text_cells_equal(exp[n], got[n])[0] for n in exp.dtype.names):
+                bad = "read differs from the concatenation of the written chunks"
+            elif not text and got.tobytes() != exp.tobytes():
+                bad = "read differs from the concatenation of the written chunks"
+        if bad:
+            COL.violation("C03.state", "header-less file after %s (step %d): %s" % (op, step, bad),
+                          dict(wit0, step=step, chunks=[int(c.size) for c in model.chunks]), key=None)
+            okall = False
+            break
+        COL.ok("C03.state", sig)
+    if okall:
+        COL.ok("C03.history", (form, delim, tuple(ops)))
+    try:
+        os.unlink(path)
+    except OSError:
+        pass
+
+
 def run_case(case):
+    if case["family"].startswith("raw-"):
+        return run_raw(case)
     from esutil import sfile
     rng = np.random.default_rng(case["sub"])
     delim = case["delim"]
